@@ -663,29 +663,29 @@ def gen_override(tier, rng):
         out.append(req)
     return out
 
+# values that denote nothing (no calendar date, no period, no tag, no entry type). Spellings that a later version might
+# plausibly accept as a convenience ("today" as a date, a lower-case "q1", "ranges", other --sort words) are NOT listed:
+# which extra spellings a flag accepts is not fixed by the property.
 BAD_VALUES = {
-    "date": ["2020-1-01", "2020-01/01", "2020-02-30", "2021-02-29", "2020-13-01", "2020-00-10", "20200101", "today", "2020-01-01 ", "1900-02-29"],
-    "period": ["2020-13", "2020-00", "2020-Q5", "2020-Q0", "2020-W00", "2021-W53", "2020-W54", "20-01", "2020-1", "2020-W", "2020-q1", "2020-w01", "2020-01-01", "202"],
-    "tag": ["a b", "#", "a=b c", "=x", "a=\"x", "#a#b", "a.b", "a=x'y\"z", "a,,b", ",", ",a", "a=\"x,y\""],
-    "entry-type": ["ranges", "open range", "positive", "duration-", "time", "openrange"],
+    "date": ["2020-02-30", "2021-02-29", "2020-13-01", "2020-00-10", "1900-02-29", "2020-01-32", "2020-04-31"],
+    "period": ["2020-13", "2020-00", "2020-Q5", "2020-Q0", "2020-W00", "2021-W53", "2020-W54"],
+    "tag": ["a b", "#", "a=b c", "=x", "a=\"x", "a=x'y\"z"],
+    "entry-type": ["duration-", "-range", "1h"],
 }
 
 def gen_arguments(tier, rng):
-    """command lines one of whose values no decoder accepts (the other clauses are fine), and unusual --sort values"""
+    """command lines one of whose values denotes nothing (the other clauses are fine)"""
     n = 200 if tier == "quick" else 15000
     out = []
     while len(out) < n:
         doc, today, sort, flags = build(rng)
         if has_conflict(flags):
             continue
-        k = rng.random()
-        if k < 0.8:
+        if True:
             name = rng.choice(["date", "since", "until", "after", "before", "period", "tag", "entry-type"])
             bad = rng.choice(BAD_VALUES["date" if name in ("date", "since", "until", "after", "before") else name])
             flags = [(n_, v) for n_, v in flags if n_ != name or name == "tag"]
             flags.insert(rng.randrange(len(flags) + 1), (name, bad))
-        else:
-            sort = rng.choice(["Asc", "Desc", "ascending", "up", "a"])
         req = request(today, sort, flags, doc)
         EXPECT[req] = reference(doc, today, sort, flags)
         INFO[req] = (today, flags)
